@@ -4,6 +4,7 @@ void harness(void) {
   EDITOR_PROLOGUE
   ND_SV(input);
   uint8_t set[32];
+  ND_FILL_U8(set, set, 32);
   __CPROVER_assume(BIT_AT(set, '#'));   /* both query sets contain #, so the stored query cannot contain one */
   char ref[3 * BUF_N + 1]; size_t rn = ref_percent_encode(input, set, ref);
   __CPROVER_assume(u.buffer.n + rn + 1 <= STR_CAP);
